@@ -198,9 +198,31 @@ def enclosing_condition_mentions(path, line, words):
     return False
 
 
+_PREDEF = {"__SSE2__": "AVEL_SSE2", "__SSE3__": "AVEL_SSE3", "__SSSE3__": "AVEL_SSSE3", "__SSE4_1__": "AVEL_SSE4_1",
+           "__SSE4_2__": "AVEL_SSE4_2", "__AVX__": "AVEL_AVX", "__AVX2__": "AVEL_AVX2", "__FMA__": "AVEL_FMA",
+           "__AVX512F__": "AVEL_AVX512F", "__AVX512VL__": "AVEL_AVX512VL", "__AVX512BW__": "AVEL_AVX512BW",
+           "__AVX512DQ__": "AVEL_AVX512DQ", "__AVX512CD__": "AVEL_AVX512CD", "__AVX512VPOPCNTDQ__": "AVEL_AVX512VPOPCNTDQ",
+           "__AVX512BITALG__": "AVEL_AVX512BITALG", "__AVX512VBMI__": "AVEL_AVX512VBMI", "__AVX512VBMI2__": "AVEL_AVX512VBMI2",
+           "__GFNI__": "AVEL_GFNI", "__POPCNT__": "AVEL_POPCNT", "__LZCNT__": "AVEL_LZCNT", "__BMI__": "AVEL_BMI",
+           "__BMI2__": "AVEL_BMI2"}
+
+
+def flags_imply(cfg):
+    """AVEL macros of every feature the compiler itself enables under the configuration's -m flags
+    (-mavx512bitalg, for instance, turns on AVX-512BW): 'naming the macros explicitly' for a comparison with
+    AVEL_AUTO_DETECT means naming all of these.  Independent of AVEL's own detection code."""
+    r = sh([CLANGXX, "-dM", "-E", "-x", "c++", "/dev/null"] + cfg.flags)
+    out = []
+    for line in r.stdout.splitlines():
+        parts = line.split()
+        if len(parts) >= 2 and parts[0] == "#define" and parts[1] in _PREDEF and _PREDEF[parts[1]] in FLAG:
+            out.append(_PREDEF[parts[1]])
+    return sorted(set(out))
+
+
 def width_constants(cfg, auto):
     """natural/max width constants and provided types as compile-time constants in IR"""
-    d = _scratch("c19w", cfg.name, " ".join(cfg.named), "auto" if auto else "explicit")
+    d = _scratch("c19w2", cfg.name, " ".join(cfg.named), "auto" if auto else "explicit")
     res = os.path.join(d, "w.json")
     if os.path.exists(res):
         with open(res) as fh:
@@ -220,7 +242,7 @@ def width_constants(cfg, auto):
     src = os.path.join(d, "t.cpp")
     with open(src, "w") as fh:
         fh.write("\n".join(lines) + "\n")
-    defs = ["-DAVEL_AUTO_DETECT"] if auto else cfg.defines
+    defs = ["-DAVEL_AUTO_DETECT"] if auto else sorted(set(cfg.defines) | {"-D" + m for m in flags_imply(cfg)})
     r = sh([CLANGXX, "-std=c++11", "-O0", "-S", "-emit-llvm", "-I", INC, src, "-o", os.path.join(d, "t.ll")] + defs + cfg.flags)
     if r.returncode != 0:
         out = {"error": r.stderr[-500:]}
@@ -284,7 +306,8 @@ def run(tier, a=None):
     outs = common.pmap(lambda c: (width_constants(c, False), width_constants(c, True)), cfgs)
     for cfg, (ex, au) in zip(cfgs, outs):
         k = {"cfg": cfg.name, "op": "auto_detect_equivalence"}
-        rule = "AVEL_AUTO_DETECT yields the same complete Vector<T,N> set and natural/max widths as the explicit macro set"
+        rule = ("AVEL_AUTO_DETECT yields the same complete Vector<T,N> set and natural/max widths as naming explicitly the macro of "
+                "every feature the compiler enables under the same -m flags")
         if not cfg.has("AVEL_SSE2"):
             res.add(k, UNDECIDED, "not comparable: the x86-64 baseline flags always define __SSE2__, so AVEL_AUTO_DETECT cannot "
                     "reproduce a macro set without AVEL_SSE2", rule)
